@@ -31,12 +31,20 @@ var rules = map[string]string{
 	"C12": "Backup stepped at its yield points (snapshot, each segment copy) with Put/Delete in between (rollover mid-backup with tiny segments), also after a recovery; the opened backup must equal the reference map at the snapshot instant; the source is compared afterwards",
 	"C15": "overwrite/delete churn with periodic Compact and clean restarts; after every Compact: directory listing equals the model's (no stray file), open handles = segments + 2, then one of Sync/Put/Delete/Backup/Close+Open must succeed; includes delete-everything-then-compact",
 	"C16": "key lengths 0,1,2,255,256,65534,65535 and value lengths around 0, 512, the remainder and the capacity of a segment; over-long keys 65536, 65537, 131071 with a stored key of the truncated length; rejected Put leaves dump and segment bytes unchanged; restart and recovery",
+	"C17": "programs of API calls (writes, deletes, compaction, restarts, simulated unclean shutdown with a torn tail) run on the harness file system, compared with the model, then replayed on fs.Mem, fs.OS and fs.OSMMap (real files): every result and the bytes (length + SHA-256) of every segment file after each Close must be identical",
+	"C13": "schedules of Acquire / next-system-call / Release / Die events of 2-4 openers of one directory, executed with real system calls (goroutines parked at the yield points between open, flock, fstat/stat, write, unlink, close) and on the extracted Coq model; after every event: who holds the lock, what each finished attempt reported (fresh / existing / locked), whether the lock path exists and is marked; fixed corpus: the historical two-holder interleaving and the flag races",
+	"C07": "2-7 goroutines issuing Put/Delete/Get/GetAppend/Has on 2-5 keys with Compact (held at its yield points), Sync, Count, Items, Backup, FileSize in the background; per-key call/return histories checked for linearizability against a register-with-delete specification (porcupine); Count against its bound",
+	"C10": "the same workload on fs.OSMMap, fs.OS and the harness file system with Close racing with everything in every second run, SetPanicOnFault, progress watchdog, goroutine dump after Close; run again under the race detector (pgh-race)",
 	"C08": "database + one of 8 kinds of damaged tail appended to a random segment (zeroes, strict prefix, bit flip in key/value/crc, garbage, valid-after-damaged, complete unacknowledged record, flip in length fields, huge claimed sizes); recovering Open compared with an independent decoder of the documented format and with the Coq reader",
 }
 
 var specialGens = map[string]func(r *rng, tier string, res *Result){
 	"C06": genPowerLoss("C06"),
 	"C09": genPowerLoss("C09"),
+	"C17": genC17,
+	"C13": genC13,
+	"C07": genC07,
+	"C10": genC10,
 }
 
 func runCheck(args []string) int {
@@ -52,6 +60,7 @@ func runCheck(args []string) int {
 	r := &rng{*seed*0x9e3779b97f4a7c15 + 12345}
 	res := &Result{Property: prop, Seed: *seed, Tier: *tier, Rule: rules[prop]}
 	if sg, ok := specialGens[prop]; ok {
+		res.Tags = map[string]int{}
 		sg(r, *tier, res)
 		writeResult(res, *out)
 		if len(res.Findings) > 0 {
